@@ -339,7 +339,7 @@ func c09Check(prop, tier string) (*Outcome, error) {
 				resFile := filepath.Join(root, fmt.Sprintf("res-%s-%d-%d.json", mode, bound, sh))
 				cb, _ := json.Marshal(map[string]any{"jobs": js, "bound": bound, "max_schedules": maxS, "shard": sh, "shards": shards, "mode": mode, "out": resFile, "budget_s": budgetPerJob})
 				_ = os.WriteFile(cfgFile, cb, 0o644)
-				c := exec.Command(bin, cfgFile)
+				c := engine.MemLimited(12, bin, cfgFile)
 				c.Env = append(os.Environ(), "GOMAXPROCS=1")
 				var se bytes.Buffer
 				c.Stderr = &se
